@@ -170,6 +170,21 @@ pub fn projections() -> Vec<Proj> {
         t.lat_max = (lat_c + 20.).min(89.);
         v.push(t);
     }
+    // every aspect that is listed without false origin offsets also appears with both of them (different
+    // magnitudes, y_0 not a multiple of x_0): an offset handled wrongly in one branch of one aspect must
+    // not hide behind a zero
+    let mut w = Vec::new();
+    for t in &v {
+        if t.op == "utm" || t.op == "butm" || t.op == "webmerc" || t.aspect == "variant B alpha=90" || (t.def.contains("x_0=") && t.def.contains("y_0=")) {
+            continue;
+        }
+        let mut u = t.clone();
+        let keep: Vec<&str> = t.def.split(' ').filter(|k| !k.starts_with("x_0=") && !k.starts_with("y_0=")).collect();
+        u.def = format!("{} x_0=4321000 y_0=-3210000.5", keep.join(" "));
+        u.aspect = Box::leak(format!("{} + offsets", t.aspect).into_boxed_str());
+        w.push(u);
+    }
+    v.extend(w);
     v
 }
 
